@@ -36,9 +36,11 @@ const (
 type gatedLeaser struct {
 	litefs.Leaser
 	closed atomic.Bool
+	asked  atomic.Int64 // PrimaryInfo calls begun
 }
 
 func (g *gatedLeaser) PrimaryInfo(ctx context.Context) (litefs.PrimaryInfo, error) {
+	g.asked.Add(1)
 	if g.closed.Load() {
 		return litefs.PrimaryInfo{}, litefs.ErrNoPrimary
 	}
